@@ -64,19 +64,20 @@ type Ctx struct {
 
 // Check is one property's machinery.
 type Check struct {
-	ID        string
-	Level     string                 // evidence level
-	Rule      string                 // how cases are generated and what makes one non-trivial / distinct
-	Cases     func(tier string) int  // number of cases per tier
-	Run       func(c *Ctx) *Result   // executes one case against the real library
-	Assume    []string               // assumptions / trusted base
-	CrashIsFinding bool              // a worker death during a case is a violation of this property
-	CaseTimeoutS   int               // per-case watchdog in seconds (0 = default)
-	MinNontrivial  int               // fewer distinct non-trivial cases than this => broken check (exit 2)
-	RaceCases func(tier string) int  // cases run in the -race binary (0 = none)
-	RaceClass func(a, b string) string // maps a pair of innermost library functions to a site class ("" = use the pair)
-	SelfTest  func() error           // harness self-check run by the driver before the workload
-	Exhaustive bool
+	ID             string
+	Level          string                   // evidence level
+	Rule           string                   // how cases are generated and what makes one non-trivial / distinct
+	Cases          func(tier string) int    // number of cases per tier
+	Run            func(c *Ctx) *Result     // executes one case against the real library
+	Assume         []string                 // assumptions / trusted base
+	CrashIsFinding bool                     // a worker death during a case is a violation of this property
+	CaseTimeoutS   int                      // per-case watchdog in seconds (0 = default)
+	MinNontrivial  int                      // fewer distinct non-trivial cases than this => broken check (exit 2)
+	RaceCases      func(tier string) int    // cases run in the -race binary (0 = none)
+	RaceClass      func(a, b string) string // maps a pair of innermost library functions to a site class ("" = use the pair)
+	SelfTest       func() error             // harness self-check run by the driver before the workload
+	Exhaustive     bool
+	MaxStackMB     int // per-goroutine stack limit of the worker (default 64)
 }
 
 var registry = map[string]*Check{}
